@@ -97,10 +97,17 @@ def sources_changed(prop: str) -> list[str]:
     """Anchor files of the property whose source differs from the pinned fingerprint (harness/model_pins.json,
     DESIGN §3.1).  Not a failure: it only raises the sampling budget of this run."""
     try:
-        pins = json.loads((VERIF / "harness" / "model_pins.json").read_text()).get(prop, {})
+        allpins = json.loads((VERIF / "harness" / "model_pins.json").read_text())
     except (OSError, ValueError):
         return []
-    return sorted(f for f, fp in pins.items() if source_fingerprint(REPO / f) != fp)
+    pins = {**allpins.get("*", {}), **allpins.get(prop, {})}
+    changed = {f for f, fp in pins.items() if source_fingerprint(REPO / f) != fp}
+    # a file added to the package is a change as well
+    known = set(allpins.get("*", {}))
+    if known:
+        changed |= {str(p.relative_to(REPO)) for p in (REPO / "hugr-py" / "src" / "hugr").rglob("*.py")
+                    if str(p.relative_to(REPO)) not in known}
+    return sorted(changed)
 
 
 EXTRA_ROUNDS = int(os.environ.get("VERIF_EXTRA_ROUNDS", "3"))
